@@ -553,13 +553,18 @@ class Ctx:
                             s.pop()
                             break
                     s.pop()
+        if r == 'unknown':
+            env = self.numeric_witness(neg)
+            if env is not None:
+                r, stage, m = 'sat', 'numeric-witness', None
+                ob['model'] = env
         ob['_m'] = m
         ob['ms'] = (time.time() - t0) * 1000
         self.stats.solver_time += time.time() - t0
         ob['verdict'] = r
         ob['stage'] = stage
         ob['size'] = len(neg.sexpr())
-        if r == 'sat':
+        if r == 'sat' and m is not None:
             ob['model'] = self.model_values(m)
         return ob
 
@@ -1603,6 +1608,24 @@ def _ctx_prove_close(self, name, a, b, tol=1e-9, scale=None, info=None, timeout_
             self.obligations.append(ob)
             return ob
     exact = all_eq(a, b)
+    if isinstance(exact, SymBool) and (self._sqrt or self._inv):
+        # preprocessing: normal form of every component difference modulo the sqrt/inverse definitions
+        from . import poly
+        t0 = time.time()
+        allzero = True
+        for x, y in zip(a.ravel(), b.ravel()):
+            d = x - y
+            if isinstance(d, SymReal):
+                if not poly.identically_zero(self, d.t):
+                    allzero = False
+                    break
+            elif _conc(d) != 0:
+                allzero = False
+                break
+        if allzero:
+            ob = {'name': name, 'verdict': 'unsat', 'stage': 'normal-form', 'ms': (time.time() - t0) * 1000, 'info': info, 'size': 0}
+            self.obligations.append(ob)
+            return ob
     ob = self.prove(name, exact, timeout_ms=min(timeout_ms or self.prove_timeout_ms, 10000), info=info)
     if ob['verdict'] == 'unsat':
         return ob
@@ -2093,3 +2116,145 @@ def _rewind(self, pos=0):
 
 Ctx.rewind_stream = _rewind
 ConcreteCtx.rewind_stream = _rewind
+
+
+# --------------------------------------------------------------------------
+# numeric witness search: when z3 answers `unknown` for a query that is probably satisfiable, look for a
+# counterexample by evaluating the query in floating point at models of the (definition-free) path condition.
+# A witness found this way is only a candidate: it is reported as `sat` and then has to replay on the real code.
+
+class _NoEval(Exception):
+    pass
+
+
+def _float_eval(c, t, env, cache):
+    k = t.get_id()
+    if k in cache:
+        return cache[k]
+    r = _float_eval1(c, t, env, cache)
+    cache[k] = r
+    return r
+
+
+def _float_eval1(c, t, env, cache):
+    if _is_num(t):
+        return float(_num(t))
+    if z3.is_true(t):
+        return True
+    if z3.is_false(t):
+        return False
+    if not z3.is_app(t):
+        raise _NoEval()
+    kind = t.decl().kind()
+    ch = t.children()
+    ev = lambda x: _float_eval(c, x, env, cache)
+    if t.num_args() == 0 and kind == z3.Z3_OP_UNINTERPRETED:
+        name = t.decl().name()
+        if name in env:
+            return env[name]
+        d = c._defof.get(t.get_id())
+        if d is None:
+            raise _NoEval()
+        if d[0] == 'inv':
+            b = ev(d[1])
+            if b == 0:
+                raise _NoEval()
+            return 1.0 / b
+        a = ev(d[1])
+        if a < 0:
+            raise _NoEval()
+        return math.sqrt(a)
+    if kind == z3.Z3_OP_ADD:
+        return sum(ev(x) for x in ch)
+    if kind == z3.Z3_OP_SUB:
+        r = ev(ch[0])
+        for x in ch[1:]:
+            r -= ev(x)
+        return r
+    if kind == z3.Z3_OP_UMINUS:
+        return -ev(ch[0])
+    if kind == z3.Z3_OP_MUL:
+        r = 1.0
+        for x in ch:
+            r *= ev(x)
+        return r
+    if kind == z3.Z3_OP_DIV:
+        b = ev(ch[1])
+        if b == 0:
+            raise _NoEval()
+        return ev(ch[0]) / b
+    if kind == z3.Z3_OP_POWER:
+        return ev(ch[0]) ** ev(ch[1])
+    if kind == z3.Z3_OP_ITE:
+        return ev(ch[1]) if ev(ch[0]) else ev(ch[2])
+    if kind == z3.Z3_OP_AND:
+        return all(ev(x) for x in ch)
+    if kind == z3.Z3_OP_OR:
+        return any(ev(x) for x in ch)
+    if kind == z3.Z3_OP_NOT:
+        return not ev(ch[0])
+    if kind == z3.Z3_OP_IMPLIES:
+        return (not ev(ch[0])) or ev(ch[1])
+    if kind in (z3.Z3_OP_LE, z3.Z3_OP_LT, z3.Z3_OP_GE, z3.Z3_OP_GT, z3.Z3_OP_EQ, z3.Z3_OP_DISTINCT):
+        a, b = ev(ch[0]), ev(ch[1])
+        if isinstance(a, bool) or isinstance(b, bool):
+            return (a == b) if kind == z3.Z3_OP_EQ else (a != b)
+        tol = 1e-7 * (1 + abs(a) + abs(b))       # robust margin: only clear-cut truth values count
+        if kind == z3.Z3_OP_LE:
+            return a <= b - tol if False else a <= b
+        if kind == z3.Z3_OP_LT:
+            return a < b
+        if kind == z3.Z3_OP_GE:
+            return a >= b
+        if kind == z3.Z3_OP_GT:
+            return a > b
+        if kind == z3.Z3_OP_EQ:
+            return abs(a - b) <= tol
+        return abs(a - b) > tol
+    if kind == z3.Z3_OP_UNINTERPRETED and t.num_args() == 1 and t.decl().name() in _TRANS:
+        try:
+            return _TRANS[t.decl().name()][0](ev(ch[0]))
+        except (ValueError, OverflowError):
+            raise _NoEval()
+    raise _NoEval()
+
+
+def _ctx_numeric_witness(self, neg, tries=8):
+    names = list(self._input_order)
+    if not names:
+        return None
+    import random
+    rng = random.Random(12345)
+    base = z3.Solver()
+    base.set('timeout', 2000)
+    # path condition atoms that do not mention defined variables (cheap to satisfy exactly)
+    defined = set(z3.Real(n).get_id() for n in [])  # placeholder
+    for p in self.pc:
+        syms = _symbols(p)
+        if all(('!' not in s_) for s_ in syms):
+            base.add(p)
+    for k in range(tries):
+        base.push()
+        for n in names:
+            v = self.inputs[n]
+            lo = rng.choice([-4, -2, -1, 0, Fraction(1, 4), Fraction(1, 2)])
+            base.add(v >= _rv(Fraction(lo)), v <= _rv(Fraction(lo) + rng.choice([1, 2, 4])))
+        r = base.check()
+        if str(r) != 'sat':
+            base.pop()
+            continue
+        m = base.model()
+        base.pop()
+        env = {n: _model_float(m.eval(self.inputs[n], model_completion=True)) for n in names}
+        cache = {}
+        try:
+            if not all(_float_eval(self, p, env, cache) for p in self.pc):
+                continue
+            if _float_eval(self, neg, env, cache) is True:
+                return env
+        except (_NoEval, ZeroDivisionError, OverflowError, TypeError):
+            continue
+    return None
+
+
+Ctx.numeric_witness = _ctx_numeric_witness
